@@ -323,3 +323,17 @@ class FlagValuesModel:
         from .sym import SymBool
 
         return SymBool(flags_all(interp, obj.fields["has"], obj.fields["val"], obj.fields["keys"]))
+
+
+@builtin_hook
+def _inspect_builtins(interp):
+    import inspect
+
+    def iscoroutinefunction(a, k, fr):
+        # whether an application object is a coroutine function is not modelled: either answer
+        interp.ctx.assumptions_used.add("inspect.iscoroutinefunction of an application object: either answer (not modelled)")
+        from .sym import SymBool
+
+        return SymBool(_z3.Bool(interp.ctx.fresh_name("iscoroutinefunction")))
+
+    return {inspect.iscoroutinefunction: iscoroutinefunction}
